@@ -12,7 +12,8 @@ import pyref
 import tlcrun
 
 PLANS = {"quick": [("e2e3", "e2e", 3, 4500), ("e2et4", "e2et", 4, 1500)],
-         "thorough": [("e2e3", "e2e", 3, None), ("e2e4", "e2e", 4, 60000), ("e2et5", "e2et", 5, 40000)]}
+         # (budget 4 of the full family has > 15M derivation states: seeded random walks instead)
+         "thorough": [("e2e3", "e2e", 3, None), ("e2eR5", "e2e", 5, 60000, 40000), ("e2et5", "e2et", 5, 40000)]}
 OPS = ("Select", "Where", "SelectMany")
 
 TYPED_SOURCE = '''
@@ -63,8 +64,13 @@ def run(prop, tier):
     rep = common.Report(prop, tier)
     progs = []
     fams = {}
-    for (name, fam, budget, keep) in PLANS[tier]:
-        got, st = common.gen_programs(prop, name, fam, budget)
+    for entry in PLANS[tier]:
+        (name, fam, budget, keep) = entry[:4]
+        if len(entry) > 4:
+            got, st = common.gen_programs(prop, name, fam, budget, simulate=f"num={max(1, entry[4] // 16)}",
+                                          extra_args=["-depth", "80", "-seed", str(common.seed() + 3)])
+        else:
+            got, st = common.gen_programs(prop, name, fam, budget)
         rep.add_tlc(st)
         total = len(got)
         got = [p for p in got if chain_steps_m(p) and not any(mentions(l, "ds") for _, l in chain_steps_m(p))]
